@@ -193,6 +193,10 @@ def prepare_evo_aspirate_dispense_parameters(
             # User-specified integers from 1-8 need to be converted to Tecan logic
             tip = int_to_tip(tip)
         tecan_tips.append(tip)
+    if Tip.Any in tecan_tips:
+        raise ValueError("Tip.Any is not allowed in tips. Select the tips explicitly.")
+    if len(set(tecan_tips)) != len(tecan_tips):
+        raise ValueError(f"Invalid tips: every tip may be selected only once, but got {tips}.")
 
     if arm is None:
         raise ValueError("Missing required paramter: arm")
@@ -451,6 +455,8 @@ def prepare_evo_wash_parameters(
             # User-specified integers from 1-8 need to be converted to Tecan logic
             tip = int_to_tip(tip)
         tecan_tips.append(tip)
+    if Tip.Any in tecan_tips:
+        raise ValueError("Tip.Any is not allowed in tips. Select the tips explicitly.")
 
     if waste_location is None:
         raise ValueError("Missing required parameter: waste_location")
@@ -627,5 +633,5 @@ def evo_wash(
     # calculate tip_selection based on tips argument
     tip_selection = 0
     for tip in tips:
-        tip_selection += tip.value
+        tip_selection |= tip.value
     return f'B;Wash({tip_selection},{waste_location[0]},{waste_location[1]},{cleaner_location[0]},{cleaner_location[1]},"{waste_vol}",{waste_delay},"{cleaner_vol}",{cleaner_delay},{airgap},{airgap_speed},{retract_speed},{fastwash},{low_volume},1000,{arm});'
